@@ -308,7 +308,9 @@ func (d *db) getEntries(shardID uint64, replicaID uint64,
 					return false
 				}
 			}
-			return true
+			// stop once this index entry is exhausted, whatever follows in the log file
+			// (possibly an incomplete record left by a failed write) is not needed
+			return expected <= queryIndex.end && expected < high
 		}
 		if err := d.readLog(ie, f); err != nil {
 			return nil, 0, err
